@@ -2231,3 +2231,213 @@ func Contradictory(conds []Cond) bool {
 	}
 	return false
 }
+
+// EvalBool interprets a small side-effect-free function with a boolean result
+// under an assignment of truth values to atoms: atomOf names the atom a value
+// stands for (neg: the value is the atom's negation). The walk follows the
+// branches the assignment selects, resolves phis by the edge taken and stops at
+// the first return. ok is false when a value outside the recognised forms
+// decides a branch or the result, or the walk does not terminate quickly.
+func EvalBool(f *ssa.Function, atomOf func(ssa.Value) (name string, neg, ok bool), assign map[string]bool) (result, ok bool) {
+	if len(f.Blocks) == 0 {
+		return false, false
+	}
+	var prev *ssa.BasicBlock
+	b := f.Blocks[0]
+	phiVal := map[*ssa.Phi]bool{}
+	var eval func(v ssa.Value, depth int) (bool, bool)
+	eval = func(v ssa.Value, depth int) (bool, bool) {
+		if depth > 20 {
+			return false, false
+		}
+		if name, neg, isAtom := atomOf(v); isAtom {
+			val, known := assign[name]
+			if !known {
+				return false, false
+			}
+			return val != neg, true
+		}
+		switch x := v.(type) {
+		case *ssa.Const:
+			if x.Value != nil && x.Value.Kind() == constant.Bool {
+				return constant.BoolVal(x.Value), true
+			}
+		case *ssa.UnOp:
+			if x.Op == token.NOT {
+				r, ok := eval(x.X, depth+1)
+				return !r, ok
+			}
+		case *ssa.Phi:
+			if r, done := phiVal[x]; done {
+				return r, true
+			}
+		}
+		return false, false
+	}
+	for step := 0; step < 200; step++ {
+		// phis first, from the edge taken
+		for _, ins := range b.Instrs {
+			phi, isPhi := ins.(*ssa.Phi)
+			if !isPhi {
+				break
+			}
+			for i, p := range b.Preds {
+				if p == prev {
+					if r, ok := eval(phi.Edges[i], 0); ok {
+						phiVal[phi] = r
+					} else {
+						delete(phiVal, phi)
+					}
+				}
+			}
+		}
+		last := b.Instrs[len(b.Instrs)-1]
+		switch x := last.(type) {
+		case *ssa.Return:
+			if len(x.Results) == 0 {
+				return false, false
+			}
+			return eval(x.Results[0], 0)
+		case *ssa.If:
+			r, ok := eval(x.Cond, 0)
+			if !ok {
+				return false, false
+			}
+			prev = b
+			if r {
+				b = b.Succs[0]
+			} else {
+				b = b.Succs[1]
+			}
+		case *ssa.Jump:
+			prev = b
+			b = b.Succs[0]
+		default:
+			return false, false
+		}
+	}
+	return false, false
+}
+
+// WalkNilPaths enumerates the acyclic paths from block start that are feasible
+// with respect to nil-ness: phis take the value of the edge the path came
+// through, and a nil comparison (or an equality with a package-level variable,
+// which implies non-nil) whose outcome contradicts what the path already
+// established prunes the branch. visit is called for every block entered, with
+// the path so far (ending in that block) and a resolver for values through the
+// path's phi choices; returning false stops the extension of that path. The
+// walk gives up (ok = false) after a fixed budget of visits.
+func WalkNilPaths(start *ssa.BasicBlock, visit func(path []*ssa.BasicBlock, resolve func(ssa.Value) ssa.Value) bool) (ok bool) {
+	budget := 20000
+	ok = true
+	type env struct {
+		phi  map[*ssa.Phi]ssa.Value
+		fact map[ssa.Value]bool // value → is nil
+	}
+	resolveIn := func(e env) func(ssa.Value) ssa.Value {
+		return func(v ssa.Value) ssa.Value {
+			for i := 0; i < 10; i++ {
+				switch x := v.(type) {
+				case *ssa.Phi:
+					if r, has := e.phi[x]; has {
+						v = r
+						continue
+					}
+				case *ssa.ChangeInterface:
+					v = x.X
+					continue
+				}
+				break
+			}
+			return v
+		}
+	}
+	var walk func(b, prev *ssa.BasicBlock, path []*ssa.BasicBlock, e env)
+	walk = func(b, prev *ssa.BasicBlock, path []*ssa.BasicBlock, e env) {
+		if budget <= 0 {
+			ok = false
+			return
+		}
+		budget--
+		// phi choices
+		ne := env{phi: map[*ssa.Phi]ssa.Value{}, fact: map[ssa.Value]bool{}}
+		for k, v := range e.phi {
+			ne.phi[k] = v
+		}
+		for k, v := range e.fact {
+			ne.fact[k] = v
+		}
+		if prev != nil {
+			for _, ins := range b.Instrs {
+				phi, isPhi := ins.(*ssa.Phi)
+				if !isPhi {
+					break
+				}
+				for i, p := range b.Preds {
+					if p == prev {
+						ne.phi[phi] = resolveIn(e)(phi.Edges[i])
+					}
+				}
+			}
+		}
+		resolve := resolveIn(ne)
+		path = append(path, b)
+		if !visit(path, resolve) {
+			return
+		}
+		onPath := func(s *ssa.BasicBlock) bool {
+			for _, p := range path {
+				if p == s {
+					return true
+				}
+			}
+			return false
+		}
+		last := b.Instrs[len(b.Instrs)-1]
+		iff, isIf := last.(*ssa.If)
+		for i, s := range b.Succs {
+			if onPath(s) {
+				continue
+			}
+			se := ne
+			if isIf {
+				truth := i == 0
+				cd := stripBool(Cond{V: iff.Cond, Truth: truth})
+				var subj ssa.Value
+				var isNil, have bool
+				if x, eq, isCmp := NilCompare(cd.V); isCmp {
+					subj, isNil, have = resolve(x), eq == cd.Truth, true
+				} else if bo, isBO := cd.V.(*ssa.BinOp); isBO && (bo.Op == token.EQL || bo.Op == token.NEQ) {
+					equal := (bo.Op == token.EQL) == cd.Truth
+					for _, pr := range [][2]ssa.Value{{bo.X, bo.Y}, {bo.Y, bo.X}} {
+						if u, isU := pr[1].(*ssa.UnOp); isU && u.Op == token.MUL {
+							if _, isG := u.X.(*ssa.Global); isG && equal {
+								subj, isNil, have = resolve(pr[0]), false, true
+							}
+						}
+					}
+				}
+				if have {
+					if k, isK := subj.(*ssa.Const); isK && k.IsNil() {
+						if !isNil {
+							continue
+						}
+					} else if known, has := ne.fact[subj]; has {
+						if known != isNil {
+							continue
+						}
+					} else {
+						se = env{phi: ne.phi, fact: map[ssa.Value]bool{}}
+						for k, v := range ne.fact {
+							se.fact[k] = v
+						}
+						se.fact[subj] = isNil
+					}
+				}
+			}
+			walk(s, b, path, se)
+		}
+	}
+	walk(start, nil, nil, env{phi: map[*ssa.Phi]ssa.Value{}, fact: map[ssa.Value]bool{}})
+	return ok
+}
